@@ -31,7 +31,11 @@ C05Problems(ev) ==
     (IF base.validErrors = 0 THEN {} ELSE {"harness: the generated model is not valid"})
     \cup (IF Faulty(sys) THEN (IF base.type \in ErrTypes /\ base.analyserErrors > 0 THEN {} ELSE {"an under- / over-constrained system is not reported as such with an error"})
           ELSE IF base.type = ExpectedType(sys) THEN {} ELSE {"model type differs from the ground truth"})
-    \cup (IF \A i \in DOMAIN ev.variants : ev.variants[i].type = base.type /\ ClassTypes(ev.variants[i]) = ClassTypes(base) THEN {} ELSE {"classification changes with the order / names of components, variables or equations"})
+    \* (a state computed twice: every ordering must report the model as not valid, with an error; which of the three error
+    \*  classes is named is not pinned down - with the initial value on another member of the class it is "underconstrained")
+    \cup (IF sys.fault.kind = "duplicateOde"
+          THEN (IF \A i \in DOMAIN ev.variants : ev.variants[i].type \in ErrTypes /\ ev.variants[i].analyserErrors > 0 THEN {} ELSE {"an under- / over-constrained system is not reported as such with an error"})
+          ELSE IF \A i \in DOMAIN ev.variants : ev.variants[i].type = base.type /\ ClassTypes(ev.variants[i]) = ClassTypes(base) THEN {} ELSE {"classification changes with the order / names of components, variables or equations"})
     \cup (IF base.type \in ErrTypes \/ \A i \in DOMAIN ev.variants : ev.variants[i].sig = base.sig THEN {} ELSE {"equation types, state / rate dependence or dependencies change with the order / names of components, variables or equations"})
     \cup (IF base.type \in ErrTypes THEN {} ELSE
            (IF {nv[i].name : i \in DOMAIN nv} = ClassNames(sys) /\ Len(nv) = Cardinality(ClassNames(sys)) THEN {} ELSE {"a class of connected variables does not appear exactly once"})
